@@ -162,6 +162,26 @@ func Load(cfg LoadCfg) (*Ctx, error) {
 		}
 		known = known2
 	}
+	if ov, ns := restoreParamOrder(c, known); len(ov) > 0 {
+		cfg2 := c.Cfg
+		cfg2.Overlay = map[string][]byte{}
+		for k, v := range c.Cfg.Overlay {
+			cfg2.Overlay[k] = v
+		}
+		for k, v := range ov {
+			cfg2.Overlay[k] = v
+		}
+		if c2, err := loadRaw(cfg2); err == nil {
+			c = c2
+			c.IdentNow = identNow
+			setRenames(c, renamed)
+			notes = append(notes, ns...)
+		} else {
+			notes = append(notes, fmt.Sprintf("restoring the reviewed parameter order abandoned (the rewritten source does not load: %.300s); analysing the tree as it is", err.Error()))
+		}
+	} else {
+		notes = append(notes, ns...)
+	}
 	for round := 0; round < 7; round++ {
 		ov, ns := inlineNewHelpers(c, known, &seq)
 		notes = append(notes, ns...)
